@@ -362,24 +362,30 @@ CLAIMED = {
              "of the one meant (%f: eps = 5e-7), every point moves by at most eps(|x|+|y|+1) per coordinate (ordered-field triangle "
              "inequality) - the tolerance the oracle uses is this bound times the viewport scale; truthiness-guarded dimensions: a "
              "non-zero dimension is written and read back unchanged, a zero one is omitted and read back as the reader's default, "
-             "harmless where that default is 0 and provably not where it is 1 (negation theorem; known finding). The writer model is "
+             "harmless where that default is 0 and provably not where it is 1 (negation theorem; known finding); paint: an element "
+             "carrying the colour text the writer emits for a packed RGBA value ('#rrggbb' of the opaque colour, character level "
+             "through the colour parser's hex matcher) and an opacity text resolving to its alpha is read back by the shape "
+             "constructor (paintOf) as exactly that value, and alpha/255 restores alpha (exact field); second generation: under any "
+             "idempotent number format the matrix written for the re-read tree is the matrix in the first text, and the paint "
+             "written again is the same. The writer model is "
              "tied to the code on every run: for every shape written directly under the root svg, the transform attribute found in "
              "the XML is compared with Model/Write.writtenMatrix (source matrix times the inverse viewBox transform, within the %f "
-             "rounding) and the presence and value of each dimension attribute with Model/Write.writeDim. Everything else is "
+             "rounding), the presence and value of each dimension attribute with Model/Write.writeDim, and for every written shape "
+             "the fill/stroke text and opacity attributes with Model/Write.writtenPaint. Everything else is "
              "decided on the implementation: trees of C03's generator parsed with reify False/True and constructor-built SVG/Group "
              "trees (every shape kind, transforms of both determinant signs, viewBox present/absent) are written with string_xml "
              "(and write_xml plain/.svgz in a scratch directory for a subset), checked well-formed, parsed back and compared shape by "
              "shape (count, order, kind, id, absolute geometry within the proved bound, fill, stroke incl. alpha, rendered stroke "
              "width), and the second generation is compared with the first.",
-        note="Partial: the writer's paint serialisation, point lists, path data and the attributes copied from the source element are not "
-             "modelled (only the transform and the dimension guard are); for those the round trip itself - an oracle relation on the "
+        note="Partial: the writer's point lists, path data, stroke width and the attributes copied from the source element are not "
+             "modelled (the transform, the dimension guard and the paint are); for those the round trip itself - an oracle relation on the "
              "implementation - is what decides, so the check's reach there is that of its generator. The geometry tolerance is the "
              "proved bound instantiated with the actual rounding of each written matrix (zero for the identity). Paths with arc commands are "
              "not generated (arc radii are printed with 6 digits: known finding C07-arc-d-6digits). Known findings: C20-nested-svg "
              "(shapes inside nested svg elements come back displaced), C20-non-scaling-stroke-reified (width scaled twice), "
              "C20-zero-dimension. Three fix: commits (reified circle with two radii written as circle, use written with its "
              "transform and x/y, reify under negative scales).",
-        technique="Lean 4 proof (field algebra for the transform round trip, ordered-field bound for %f, guard lemmas) + round-trip and second-generation relations evaluated on the implementation over generated and constructor-built trees",
+        technique="Lean 4 proof (field algebra for the transform round trip, ordered-field bound for %f, guard lemmas, paint round trip through the character-level colour parser) + differential correspondence of the writer model with the written XML + round-trip and second-generation relations evaluated on the implementation over generated and constructor-built trees",
         ref="DESIGN.md §4 C20"),
 }
 ALL = ["C%02d" % i for i in range(1, 21)]
